@@ -45,3 +45,8 @@ claim("C08",
   text="Decides the shape-of-code clauses of the wire format on every run: (W1) per Go value type the emitter chosen by encodeScalarField has the token class the README table requires, classes derived from the emitter bodies, and every type scalarGoFromReflect can return has a case; (W2) base64.StdEncoding, UTC + RFC3339 layout, %04d-%02d-%02d resolved by object identity; (W3) FormatFloat only under NaN/Inf tests; (W4) open/close pairing by defer and the separator idiom in every container callback; (W5) who may write raw bytes: only structural constants, strconv numbers, appendString output, and a definitely-assigned pre-encoded splice in encodeAny; (W6) \"!type\"/\"value\" framing on both encoder and decoder; (W7) the escaper's mandatory escape set and single call site; (X4) encodeValue's interface dispatch order against the roles each Field implementation declares; plus the R-PANIC inventory over the encode path.",
   note="Not decided: byte-exact output for concrete values, omission of unset members (decided by protoreflect Has at run time), member names being the schema's JSON names beyond the who-returns structure. Trusted: strconv/fmt/time/base64 semantics, protojson's escaper (copied verbatim), README table transcription in props/c08.go. " + _PANIC_NOTE,
   technique="emitter classification + wire-format table comparison; constant/object-identity extraction; dominator facts; typestate pairing; dispatch-order check; panic-site inventory")
+
+claim("C03",
+  text="Decides the rejection and leniency machinery visible in code shape, over everything reachable from JSONToProto/QueryToProto/DecodeAnyTo: (E1) no return with a nil error inside `if err != nil`; (E2) no dropped error results; (E3) the zero protoreflect.Value with a nil error only under a nil-input guard; (E4) a table of required rejections matched structurally — multiple oneof keys and a contradicting \"!type\" (outside the member callback, so independent of member order), duplicate key, non-string key, delimiter where a scalar is expected (3 sites), non-string enum tokens (2), Any without type/value or with two values, unknown enum name; (F1) per scalar kind the accepted token types include the documented quoted and bare spellings; (F2) strconv bit sizes equal the constructor width and int64→32-bit/unsigned narrowings have range tests; leniency constants (base64 alphabet mapping + padding + StdEncoding, enum prefix stripping, RFC3339 layout); query parameters reuse the JSON scalar setters.",
+  note="Not decided: that the stored value equals the denoted one (strconv/base64/time/decimal semantics are trusted), numeric precision, encoding/json's tokenizer, uint64 above MaxInt64 sent bare (json.Number.Int64 fails: rejected, not silently wrong — DESIGN.md D26). E4 matchers recognise the if-forms listed in props/c03.go; a different but equivalent form is reported as missing and must be added there.",
+  technique="error-discipline dataflow over the VTA-reachable set; structural required-guard matching; acceptance-matrix and bit-size extraction from type switches; constant extraction")
